@@ -475,3 +475,94 @@ Example C01_example_negative_cost :
                        (1, mkr 4 [] 1, 5 * sec); (1, mkr 5 [] 1, 5 * sec); (1, mkr 6 [] 1, 5 * sec)])
   = [OBool true; OBool true; OBool true; OBool true; OBool true; OBool false].
 Proof. split; vm_compute; reflexivity. Qed.
+
+(* ---------------------------------------------------------------- metrics reads, drops *)
+From Verif Require Import C01.Metrics.
+
+(* Metrics reads are part of the engine: a collection of the used-quota gauge
+   (observeQuotaUsed -> GetQuotaGroupsCounters -> GetCounter) may come between
+   any two atomic steps - between the Inc and the Allowed of a transaction, at
+   a window end.  Frame: erasing the collections from ANY schedule (any start
+   world) leaves the final world - every window start, counter, admission
+   record, log - and the output of every other step unchanged. *)
+Theorem C01_scrape_frame : forall f ms w,
+  fst (mrun f w ms) = fst (run f w (erase ms)) /\
+  erase_outs ms (snd (mrun f w ms)) = snd (run f w (erase ms)).
+Proof. exact mrun_frame. Qed.
+Print Assumptions C01_scrape_frame.
+
+(* the same as a statement about a variant of the scrape step; true of the code ... *)
+Theorem C01_scrape_frame_faithful : scrape_frame SFaithful.
+Proof. exact scrape_frame_faithful. Qed.
+Print Assumptions C01_scrape_frame_faithful.
+
+(* ... false when the scrape starts a fresh window (seeded change C01-10: max 1,
+   a second request let through in the same window after the scrape) ... *)
+Theorem C01_scrape_resets_window_refuted : ~ scrape_frame SResetsWindow.
+Proof. exact scrape_frame_resets_refuted. Qed.
+Print Assumptions C01_scrape_resets_window_refuted.
+
+(* ... and false when the scrape drops the admission records of a window that is
+   over (seeded change C18-10: the only request, counted, is then refused) *)
+Theorem C01_scrape_clears_records_refuted : ~ scrape_frame SClearsMemo.
+Proof. exact scrape_frame_clears_refuted. Qed.
+Print Assumptions C01_scrape_clears_records_refuted.
+
+(* hence every schedule theorem holds with collections anywhere in the
+   schedule; the window bound spelled out *)
+Theorem C01_window_bound_with_scrapes : forall f ms clk0,
+  wf_forest f = true -> clock_ok clk0 (erase ms) ->
+  let w := fst (mrun f init ms) in
+  forall k d, lookup (fst k) f = Some d ->
+    (forall s, csum k s (charges w) <= q_max d) /\
+    (forall c, In c (charges w) -> c_key c = k ->
+       c_ws c * sec <= c_at c < c_ws c * sec + q_win d) /\
+    (forall c1 c2, In c1 (charges w) -> In c2 (charges w) -> c_key c1 = k -> c_key c2 = k ->
+       c_ws c1 = c_ws c2 \/ c_ws c1 * sec + q_win d <= c_ws c2 * sec
+       \/ c_ws c2 * sec + q_win d <= c_ws c1 * sec) /\
+    (forall s, ws (st w k) = Some s -> cnt (st w k) = csum k s (charges w)).
+Proof.
+  intros f ms clk0 Hwf Hclk w. subst w.
+  rewrite (proj1 (mrun_frame f ms init)).
+  exact (C01_window_bound f (erase ms) clk0 Hwf Hclk).
+Qed.
+Print Assumptions C01_window_bound_with_scrapes.
+
+(* one-at-a-time histories with collections between the requests: the verdicts
+   and the final world are those of the history without them, so the
+   sequential theorems (C01_exact_sequential_levels ...) apply as they stand *)
+Theorem C01_seq_scrape_frame : forall f h w,
+  seq_run_m f w h = seq_run_t f w (seq_erase h).
+Proof. exact seq_run_m_frame. Qed.
+Print Assumptions C01_seq_scrape_frame.
+
+(* A drop (OnRequestDrop / queue time-out -> fixedWindow.Dec, or the per-key
+   quota.Dec) gives nothing back: in every state, for every key, window start
+   and counter are unchanged and so are the logs - in particular a drop that
+   arrives after a roll-over cannot make room in the new window (seeded change
+   C01-9). *)
+Theorem C01_drop_leaves_counters : forall f w q rq k,
+  (let w' := fst (step f w (Dec q rq)) in
+   ws (st w' k) = ws (st w k) /\ cnt (st w' k) = cnt (st w k) /\
+   charges w' = charges w /\ grants w' = grants w /\ passes w' = passes w) /\
+  (let w' := fst (step f w (KDec q rq)) in
+   ws (st w' k) = ws (st w k) /\ cnt (st w' k) = cnt (st w k) /\
+   charges w' = charges w /\ grants w' = grants w /\ passes w' = passes w).
+Proof. intros. split; [apply dec_step_counters|apply kdec_step_counters]. Qed.
+Print Assumptions C01_drop_leaves_counters.
+
+(* scrapes between Inc and Allowed and at the window end, a drop after the
+   roll-over: max 1 / 10 s; r1 counted at 5 s, scraped, let through; r2 opens
+   the next window at 15 s; r1 dropped at 16 s; r3 at 17 s is refused *)
+Example C01_example_scrapes :
+  let f := [(1, mkq 1 10 None None false)] in
+  let r1 := mkr 1 [] 0 in let r2 := mkr 2 [] 0 in let r3 := mkr 3 [] 0 in
+  let ms := [MAct (Inc 1 r1 (5 * sec)); MScrape (15 * sec); MAct (Allowed 1 r1);
+             MAct (Inc 1 r2 (15 * sec)); MScrape (15 * sec + 1); MAct (Allowed 1 r2);
+             MAct (Dec 1 r1); MAct (Inc 1 r3 (17 * sec)); MAct (Allowed 1 r3)] in
+  wf_forest f = true /\ clock_ok 0 (erase ms) /\
+  snd (mrun f init ms) = [ONone; ONone; OBool true; ONone; ONone; OBool true; ONone; ONone; OBool false].
+Proof.
+  split; [vm_compute; reflexivity|]. split; [|vm_compute; reflexivity].
+  unfold sec. cbn [erase clock_ok time_of]. repeat split; lia.
+Qed.
